@@ -192,6 +192,31 @@ func runGeom(c Case) (v vkit.Verdict) {
 	if b == nil {
 		return v.Fail("Bounds() = nil")
 	}
+	// Bounds() is a query: afterwards the geometry still has exactly the same vertices (also its nested members),
+	// and asking again gives the same box
+	if after, ok := vkit.FromGeom(g); !ok || !after.Equal(*c.G, true) {
+		return v.Fail("calling Bounds() changed the geometry: now %+v", after)
+	}
+	if b2 := g.Bounds(); b2 == nil || !(b2.Min == b.Min && b2.Max == b.Max) {
+		return v.Fail("second Bounds() call gives %+v, first gave %+v", b2, *b)
+	}
+	if c.G.T == "GeometryCollection" {
+		for i, m := range g.(geom.GeometryCollection) {
+			mj := c.G.Geoms[i]
+			mv := mj.Flatten()
+			mb := m.Bounds()
+			if len(mv) > 0 && mb != nil {
+				mn, mx := vkit.MkP(inf, inf), vkit.MkP(-inf, -inf)
+				for _, p := range mv {
+					mn = vkit.MkP(math.Min(float64(mn[0]), float64(p[0])), math.Min(float64(mn[1]), float64(p[1])))
+					mx = vkit.MkP(math.Max(float64(mx[0]), float64(p[0])), math.Max(float64(mx[1]), float64(p[1])))
+				}
+				if !sameBox(mb, mn, mx) {
+					return v.Fail("after the collection's Bounds(), member %d reports Bounds() %+v, tight envelope is %v %v", i, *mb, mn, mx)
+				}
+			}
+		}
+	}
 	if len(V) == 0 {
 		if !b.Empty() {
 			return v.Fail("Bounds() of a geometry without vertices = %+v, want the empty box", *b)
@@ -267,7 +292,7 @@ func TestProp(t *testing.T) {
 		ID: "C04",
 		Rule: "rapid: geometries of all eight types (collections nested to depth<=3, 0-6 members, 0-3 vertices per member so that empty rings/" +
 			"lines/polygons/collections and runs of them are frequent; coordinates from {+-0,+-1,+-Inf,+-MaxFloat,small ints,random}; *Bounds members are proper boxes) " +
-			"checked against a reference flattening (Len, Points order bit-for-bit, no panic, tight Bounds / empty box); triples of boxes (proper boxes incl. " +
+			"checked against a reference flattening (Len, Points order bit-for-bit, no panic, tight Bounds / empty box; Bounds() leaves the geometry and its members unchanged and is repeatable); triples of boxes (proper boxes incl. " +
 			"degenerate and infinite ones, and the canonical empty box) for Extend=lattice join (commutative, associative, idempotent, identity on empty), Overlaps=" +
 			"closed boxes share a point, box-box Intersection=common rectangle or nil, Copy, Empty; plus exhaustive enumeration of box pairs x third boxes over a " +
 			"4-5 value grid. Non-trivial = geometry with an empty member or nesting depth>=2; box pair that touches, is separated on exactly one axis, or " +
